@@ -283,13 +283,40 @@ func c02main(c *Ctx) {
 			d.normal, d.errs = nil, nil
 			c.R.Add("calls_on_a_logger_left_to_the_default_devices", 1)
 		} else {
-			lg.SetWriter(pool[d.normal[0]])
-			for _, w := range d.normal[1:] {
-				lg.AddWriter(pool[w])
+			// how the destinations are handed over: as they are; as values of a FUNCTION type that is a Writer (values
+			// that cannot be compared with == or used as map keys); or behind a decoy that was registered in front of
+			// each class and removed again before the call (the lists then hold exactly the destinations of the model)
+			dst := func(i int) io.Writer { return pool[i] }
+			decoy := io.Writer(nil)
+			switch idx % 7 {
+			case 3:
+				dst = func(i int) io.Writer { return funcLW(pool[i].Write) }
+				c.R.Add("calls_whose_destinations_are_function_values", 1)
+			case 5:
+				decoy = mon.New(log, "DECOY", mon.ShapePlain)
+				c.R.Add("calls_after_a_decoy_in_front_of_each_class_was_removed", 1)
 			}
-			lg.SetErrorWriter(pool[d.errs[0]])
+			if decoy != nil {
+				lg.SetWriter(decoy)
+				lg.AddWriter(dst(d.normal[0]))
+			} else {
+				lg.SetWriter(dst(d.normal[0]))
+			}
+			for _, w := range d.normal[1:] {
+				lg.AddWriter(dst(w))
+			}
+			if decoy != nil {
+				lg.SetErrorWriter(decoy)
+				lg.AddErrorWriter(dst(d.errs[0]))
+			} else {
+				lg.SetErrorWriter(dst(d.errs[0]))
+			}
 			for _, w := range d.errs[1:] {
-				lg.AddErrorWriter(pool[w])
+				lg.AddErrorWriter(dst(w))
+			}
+			if decoy != nil {
+				lg.RemoveWriter(decoy)
+				lg.RemoveErrorWriter(decoy)
 			}
 		}
 		if r.P(25) || (defaultDev && r.P(50)) {
@@ -559,7 +586,11 @@ func c02main(c *Ctx) {
 			feature = mode
 		}
 		bad := false
-		for i := 0; i < nW; i++ {
+		if n := len(got["DECOY"]); n > 0 {
+			bad = true
+			c.R.Violation(idx, "delivery", "C02/delivery/removed-destination/"+feature, fmt.Sprintf("a destination that was registered in front of its class and REMOVED before the call saw %d Write(s); events: %s", n, clip(fmtEvents(evs), 1500)), desc)
+		}
+		for i := 0; i < nW && !bad; i++ {
 			wid := fmt.Sprintf("W%d", i)
 			if len(got[wid]) != want[wid] {
 				bad = true
